@@ -32,8 +32,14 @@ FAM = collections.OrderedDict([
     ("shared",  ["[%", "]", "[[", "]", "[#", "]", "", ""]),               # shared one-character end marker
     ("line",    ["{%", "%}", "{{", "}}", "{#", "#}", "#", "##"]),         # default + line prefixes
     ("lineerb", ["<%", "%>", "<%=", "%>", "<%#", "%>", "%", "%%"]),       # ERB + line prefixes sharing characters
+    # self-overlapping delimiters (a proper prefix is also a suffix: --> ##} {{% %%} ]]] aab ...): the inputs on which a
+    # substring search that resumes behind a failed candidate goes wrong
+    ("ov-html", ["{{%", "%%}", "{{", "}}", "<!--", "-->", "", ""]),
+    ("ov-hash", ["[[[", "]]]", "<<%", "%%>", "{##", "##}", "", ""]),
+    ("ov-word", ["aab", "bba", "(((", ")))", "/**", "**/", "", ""]),
+    ("ov-line", ["{%%", "%%}", "{{{", "}}}", "{##", "##}", "::", ":::"]),
 ])
-LINE_FAMS = ["line", "lineerb"]
+LINE_FAMS = ["line", "lineerb", "ov-line"]
 MK = ["", "-", "+"]
 NLS = ["", "\n", "\r\n", "\r"]
 BODY = [" 'V' ", " set q = 1 ", " c "]
@@ -145,6 +151,10 @@ def valid(d, segs):
             if s[0] == "gtag":
                 # the interior must not contain the end delimiter of its own tag
                 if [d[3], d[1], d[5]][s[1]] in s[4]: return False
+            if s[0] in ("gtag", "tag") and s[1] == 2:
+                # the first occurrence of the comment end is the one that ends the comment
+                inner = (s[4] if s[0] == "gtag" else BODY[2]) + MK[s[3]]
+                if (inner + d[5]).find(d[5]) != len(inner): return False
             if s[0] == "raw":
                 c = s[3]; bs = d[0]
                 close = bs + MK[s[4]] + " endraw " + MK[s[5]] + d[1]
@@ -263,6 +273,36 @@ def corpus_case(rng, prog):
             out.append(("gtag", s[1], l, r, s[4]))
         else:
             out.append(s)
+    return out
+
+
+def adversarial_strings(d):
+    """endings that defeat a naive substring search for one of the active delimiters: every proper prefix of every delimiter,
+    alone, doubled, and with the delimiter's first character repeated before / after it"""
+    out = []
+    for D in d:
+        for k in range(1, len(D)):
+            P = D[:k]
+            for x in (P, P + D[0], D[0] + P, P + P, D[0] * (k + 1)):
+                if x not in out: out.append(x)
+    return out
+
+
+def adversarial_cases(rng, fam):
+    d = FAM[fam]
+    out = []
+    for adv in adversarial_strings(d):
+        shapes = []
+        for r in range(3):
+            shapes.append([("text", "A"), ("gtag", 2, 0, r, " x" + adv), ("text", "B"), ("tag", 2, 0, 0), ("text", "C")])
+            shapes.append([("text", "A"), ("gtag", 2, r, 0, adv + " x " + adv), ("text", "B")])
+        for l2 in range(3):
+            shapes.append([("text", "A"), ("raw", 0, 0, "a" + adv, l2, 0), ("text", "B"), ("raw", 0, 0, adv, 0, 0)])
+        for k in range(3):
+            shapes.append([("text", "x" + adv), ("tag", k, 0, 0), ("text", adv + "y")])
+            shapes.append([("tag", k, 0, 0), ("text", adv), ("tag", (k + 1) % 3, 0, 0)])
+        for sh in shapes:
+            if valid(d, sh): out.append(sh)
     return out
 
 
@@ -566,6 +606,12 @@ def main():
                 ok = [f for f in fams if valid(FAM[f], segs)]
                 if len(ok) > 1:
                     for f in ok: yield (f, bits, segs), "corpus"
+        # adversarial w.r.t. the active configuration: comment bodies, raw contents and texts ending in proper prefixes of the
+        # delimiters (every family)
+        for fam in FAM:
+            for segs in adversarial_cases(rng, fam):
+                for bits in (range(8) if chk.thorough else [rng.below(8), rng.below(8)]):
+                    yield (fam, bits, segs), "adversarial"
         # mode 1: arbitrary sources over delimiter material (token-stream correspondence, no panic)
         for _ in range(150000 if chk.thorough else 15000):
             fam = rng.choice(list(FAM)); d = FAM[fam]
@@ -668,7 +714,7 @@ def main():
                     if sm is None or sm[0] != se[0] or sm[1] != se[1]:
                         if len(theorem_bad) < 5: theorem_bad.append((m, c, mod, sp))
                 exp_r, exp_items = split_spec(sp)
-                is_corpus = (cl == "corpus")
+                is_corpus = (cl == "corpus" or any(x[0] == "gtag" for x in segs))
                 naive = []
                 for s in segs:
                     if s[0] == "text": naive += [ord(x) for x in s[1]]
